@@ -187,6 +187,7 @@ type c13State struct {
 	ties     int
 	evals    int
 	logHash  []string
+	runHash  map[string]string
 	budget   int
 }
 
@@ -389,10 +390,16 @@ func (st *c13State) execRun(run *Run, record bool) (core.Signature, string, erro
 			firstDetail = fmt.Sprintf("op %d %s differs from the pristine model of %s\n%s\nhistory: %s", i, op.String(), v.Name, detail, strings.Join(log, "\n         "))
 		}
 	}
-	if record {
+	{
 		h := sha256.Sum256([]byte(strings.Join(log, "\n")))
 		st.mu.Lock()
-		st.logHash = append(st.logHash, run.ID+":"+hex.EncodeToString(h[:6]))
+		if st.runHash == nil {
+			st.runHash = map[string]string{}
+		}
+		st.runHash[run.ID] = hex.EncodeToString(h[:6])
+		if record {
+			st.logHash = append(st.logHash, run.ID+":"+hex.EncodeToString(h[:6]))
+		}
 		st.mu.Unlock()
 	}
 	return firstSig, firstDetail, nil
@@ -648,6 +655,22 @@ func CheckC13(tier string, seed uint64, rep *core.Reporter) (*core.Evidence, err
 		return nil, firstErr
 	}
 
+	// Determinism probe: re-execute a few runs, now alone and in order; the
+	// event log of each (operations, exit classes, files written, report
+	// digests) must be identical. A difference is trouble of the machinery.
+	detChecked := 0
+	for i := 0; i < len(allRuns) && detChecked < 4; i += 1 + len(allRuns)/4 {
+		run := allRuns[i]
+		before := st.runHash[run.ID]
+		if _, _, err := st.execRun(run, false); err != nil {
+			return nil, err
+		}
+		if after := st.runHash[run.ID]; after != before {
+			return nil, Infra("gen-sim is not deterministic: run %s produced event log %s, then %s", run.ID, before, after)
+		}
+		detChecked++
+	}
+
 	// Report (after minimising) in run order, so that output is deterministic.
 	for _, o := range outcomes {
 		key := opsKey(o.run)
@@ -715,6 +738,7 @@ func CheckC13(tier string, seed uint64, rep *core.Reporter) (*core.Evidence, err
 			"unwrapped_os_calls":      t.Instr.Unwrapped,
 			"go_statements_in_lox":    len(t.Instr.GoStmts),
 			"event_log_hash":          hex.EncodeToString(lh[:8]),
+			"determinism_probe":       fmt.Sprintf("%d runs re-executed alone: identical event logs", detChecked),
 			"runs_per_hour":           int(float64(len(allRuns)) / wall * 3600),
 			"generations_per_hour":    int(float64(x.Gens) / wall * 3600),
 			"simulated_time":          "none: lox reads no clock; logical steps (seam calls, ticks) only",
